@@ -24,7 +24,10 @@ import (
 	"verif/ref"
 )
 
-var keyNames = []string{"ed1", "ed2", "rsa2048", "rsa3072", "p224", "p256", "p384", "p521"}
+var keyNames = []string{"ed1", "ed2", "rsa2048", "rsa3072", "p224", "p256", "p384", "p521",
+	// raw material with a boundary byte value at one end (see cmd/genkeys): public key starting / ending with
+	// 0x00, 0x20, 0x0a; seed starting with 0x0a, 0x00 and ending with 0x20; P-256 X / D with a leading zero byte
+	"edz0", "edz1", "edw0", "edw1", "edsw", "edsz", "p256xz", "p256dz"}
 var encodings = []string{"pkcs8", "pkcs1", "sec1", "pub", "cert"}
 var framings = []string{"plain", "leading-text", "trailing-text", "second-block", "crlf", "leading-blank-lines"}
 var apis = []string{"LoadKey", "LoadKeyDefaults", "LoadKeyReader", "LoadKeyReaderDefaults"}
@@ -512,7 +515,7 @@ func replay(c *mcx.Ctx, raw json.RawMessage) (string, string) {
 func init() {
 	mcx.Register(&mcx.Driver{
 		ID: "C19", Run: run, Replay: replay,
-		Rule: "full product over the committed key pool: key {Ed25519 x2, RSA-2048, RSA-3072, P-224, P-256, P-384, P-521} x encoding {PKCS#8, PKCS#1, SEC1 private; PKIX public; X.509 certificate} where it applies x framing {plain, leading text, trailing text, second PEM block, CRLF, leading blank lines} x API {LoadKey, LoadKeyDefaults, LoadKeyReader, LoadKeyReaderDefaults} x 7 (scheme, hash-algorithm) parameter sets for the explicit APIs (quick: all sets on plain framing, the valid set on the others); " +
+		Rule: "full product over the committed key pool: key {Ed25519 x2, RSA-2048, RSA-3072, P-224, P-256, P-384, P-521, six Ed25519 keys whose public key or seed starts or ends with 0x00 / 0x20 / 0x0a, two P-256 keys whose X coordinate resp. private scalar starts with a zero byte} x encoding {PKCS#8, PKCS#1, SEC1 private; PKIX public; X.509 certificate} where it applies x framing {plain, leading text, trailing text, second PEM block, CRLF, leading blank lines} x API {LoadKey, LoadKeyDefaults, LoadKeyReader, LoadKeyReaderDefaults} x 7 (scheme, hash-algorithm) parameter sets for the explicit APIs (quick: all sets on plain framing, the valid set on the others); " +
 			"histories: a second load into a Key object that already holds another key, for every ordered pair of 3 keys x 5 encodings, with default and explicit parameters; one identifier across all forms of a pair and pairwise different identifiers; sign(private form) x verify(public / certificate form) for same and other pairs incl. independent crypto; every single-byte substitution (255 values) and every truncation of the DER of the smallest encodings (Ed25519 PKIX and PKCS#8, P-224 PKIX; thorough: + P-256 SEC1); foreign material (empty, garbage, CSR, encrypted PKCS#8, X25519, PKCS#1 public, wrong label, nil reader, missing file). " +
 			"Oracle: crypto/x509 directly decides what the material is; type, default scheme, public half, halves present and ref.KeyID must agree; never a panic. states = cases.",
 		Assumptions: []string{"key values beyond the pool and the SPIFFE SVID conversion (internal package) are outside", "certificates are self-signed at run time from pool keys (the key id does not depend on the certificate bytes)"},
